@@ -328,7 +328,25 @@ func runEvolution(r *evid.Run, dir string, cs int64) {
 					e.stats["repeated-disconnects"]++
 				}
 			}
+			// mid-reorg: the wallet's tip is now below the fork; a disconnect of an
+			// old-branch block (any height up to the old tip) is delivered once more
+			// before the new branch connects
+			if rg.Intn(3) == 0 {
+				ch.Send(discs[rg.Intn(len(discs))])
+				e.stats["disconnects-repeated-mid-reorg"]++
+			}
+			// the new branch may arrive in two instalments with a repeated old
+			// disconnect in between (the wallet's chain is then shorter than the
+			// highest block it ever stored)
+			split := int(ch.Height()) + 1
+			if rg.Intn(3) == 0 {
+				split = fork + rg.Intn(int(ch.Height())-fork+1)
+			}
 			for hh := fork; hh <= int(ch.Height()); hh++ {
+				if hh == split {
+					ch.Send(discs[rg.Intn(len(discs))])
+					e.stats["disconnects-repeated-mid-reorg"]++
+				}
 				ch.NotifyConnect(hh)
 			}
 			after = fmt.Sprintf("reorg depth %d -> %d new blocks (tip %d), %d wallet txs in the losing branch, re-included %d", d, newLen, ch.Height(), len(losing), len(txsAt))
